@@ -13,7 +13,7 @@ from ..core import canon, roundtrip, space
 PROPERTY = "C16"
 LEVEL = "model_checking"
 RULE = (
-    "states = histories over {write(cfg) for cfg in the writer alphabet} u {replace index, edit index in place, shift the whole index by 0.01, insert "
+    "states = histories over {write(cfg) for cfg in the writer alphabet} u {replace index, edit the last / the first index sample in place, shift the whole index by 0.01, insert "
     "a curve at position 0, edit another curve, edit a header value, edit WRAP} from 16 roots (scratch LASFiles with "
     "increasing / decreasing / irregular / single-sample index, with and without units; files read with STOP agreeing "
     "or not, STRT disagreeing, 1.2, wrapped, empty-valued items, text curve, duplicate mnemonics, depths around 3000, STRT/STOP/STEP units disagreeing, read with mnemonic_case='lower'); on every write "
@@ -107,8 +107,8 @@ def write_cfgs(tier):
     return base
 
 
-EDITS = ["replace-index", "inplace-index", "nudge-index", "insert-curve0", "edit-other-curve", "nan-other-curve", "edit-header", "edit-wrap"]
-INDEX_EDITS = ("replace-index", "inplace-index", "nudge-index", "insert-curve0")
+EDITS = ["replace-index", "inplace-index", "inplace-first", "nudge-index", "insert-curve0", "edit-other-curve", "nan-other-curve", "edit-header", "edit-wrap"]
+INDEX_EDITS = ("replace-index", "inplace-index", "inplace-first", "nudge-index", "insert-curve0")
 
 
 def alphabet(tier):
@@ -188,6 +188,10 @@ def apply_edit(las, e, step):
         las.curves[0].data = np.asarray(las.curves[0].data, dtype=float) + 1000.0 + step
     elif e == "inplace-index":
         las.index[-1] = las.index[-1] + 0.5
+    elif e == "inplace-first":
+        if len(las.index) < 2:
+            return False
+        las.index[0] = las.index[0] - 0.5     # in place, the last sample (what STOP is compared with) stays
     elif e == "nudge-index":
         las.index[...] = las.index + 0.01  # a small shift of the whole index, in place
     elif e == "insert-curve0":
